@@ -9,29 +9,34 @@ Require Import Kinds PyStr Line Matcher Ast Builder DenseDefs OrdDefs.
 Inductive elem :=
   | ELine (k : kind) (l : loc) (kw : str) (text : str)
   | ETag (l : loc) (name : str)
-  | ERow (l : loc) (cells : list cell).
+  | ERow (l : loc) (cells : list cell)
+  | EText (s : str).          (* a non-blank line of free text: of a description or of a doc string's content *)
+
+(* the non-blank lines of a text *)
+Definition nonblank (s : str) : bool := negb (forallb is_space s).
+Definition text_elems (s : str) : list elem := map EText (filter nonblank (split_chr LF s)).
 
 (* ---- read off the AST, in source order ---- *)
 Definition tag_elems (ts : list tag) : list elem := map (fun t => ETag (tg_loc t) (tg_name t)) ts.
 Definition row_elems (rs : list row) : list elem := map (fun r => ERow (r_loc r) (r_cells r)) rs.
 Definition step_elems (s : step) : list elem :=
   ELine KStepLine (st_loc s) (st_keyword s) (st_text s)
-  :: match st_arg s with ArgTable _ rows => row_elems rows | _ => [] end.
+  :: match st_arg s with ArgTable _ rows => row_elems rows | ArgDoc d => text_elems (ds_content d) | ArgNone => [] end.
 Definition bg_elems (b : background) : list elem :=
-  ELine KBackgroundLine (bg_loc b) (bg_keyword b) (bg_name b) :: flat_map step_elems (bg_steps b).
+  ELine KBackgroundLine (bg_loc b) (bg_keyword b) (bg_name b) :: text_elems (bg_desc b) ++ flat_map step_elems (bg_steps b).
 Definition ex_elems (e : examples) : list elem :=
   tag_elems (ex_tags e) ++ ELine KExamplesLine (ex_loc e) (ex_keyword e) (ex_name e)
-  :: (match ex_header e with Some r => row_elems [r] | None => [] end ++ row_elems (ex_body e)).
+  :: text_elems (ex_desc e) ++ (match ex_header e with Some r => row_elems [r] | None => [] end ++ row_elems (ex_body e)).
 Definition sc_elems (s : scenario) : list elem :=
   tag_elems (sc_tags s) ++ ELine KScenarioLine (sc_loc s) (sc_keyword s) (sc_name s)
-  :: (flat_map step_elems (sc_steps s) ++ flat_map ex_elems (sc_examples s)).
+  :: text_elems (sc_desc s) ++ (flat_map step_elems (sc_steps s) ++ flat_map ex_elems (sc_examples s)).
 Definition rchild_elems (c : rchild) := match c with RCBackground b => bg_elems b | RCScenario s => sc_elems s end.
 Definition ru_elems (r : grule) : list elem :=
-  tag_elems (ru_tags r) ++ ELine KRuleLine (ru_loc r) (ru_keyword r) (ru_name r) :: flat_map rchild_elems (ru_children r).
+  tag_elems (ru_tags r) ++ ELine KRuleLine (ru_loc r) (ru_keyword r) (ru_name r) :: text_elems (ru_desc r) ++ flat_map rchild_elems (ru_children r).
 Definition fchild_elems (c : fchild) :=
   match c with FCBackground b => bg_elems b | FCScenario s => sc_elems s | FCRule r => ru_elems r end.
 Definition f_elems (f : feature) : list elem :=
-  tag_elems (f_tags f) ++ ELine KFeatureLine (f_loc f) (f_keyword f) (f_name f) :: flat_map fchild_elems (f_children f).
+  tag_elems (f_tags f) ++ ELine KFeatureLine (f_loc f) (f_keyword f) (f_name f) :: text_elems (f_desc f) ++ flat_map fchild_elems (f_children f).
 Definition doc_elems (d : document) : list elem := match doc_feature d with Some f => f_elems f | None => [] end.
 
 (* ---- read off a matched token ---- *)
@@ -44,6 +49,7 @@ Definition tok_elems (k : kind) (t : token) : list elem :=
     end
   | KTagLine => map (fun it => ETag (get_location t (Some (fst it))) (snd it)) (m_items t)
   | KTableRow => [ERow (get_location t None) (get_cells t)]
+  | KOther => match m_text t with Some text => text_elems text | None => [] end
   | _ => []
   end.
 Definition tok_comment (k : kind) (t : token) : list comment :=
@@ -57,20 +63,23 @@ Definition cpat (r : rule) : list (key * bool) :=
   match r with
   | RGherkinDocument => [(KR RFeature, false)]
   | RFeature => [(KR RFeatureHeader, false); (KR RBackground, false); (KR RScenarioDefinition, true); (KR RRule, true)]
-  | RFeatureHeader => [(KR RTags, false); (KT KFeatureLine, false)]
+  | RFeatureHeader => [(KR RTags, false); (KT KFeatureLine, false); (KR RDescription, false)]
   | RRule => [(KR RRuleHeader, false); (KR RBackground, false); (KR RScenarioDefinition, true)]
-  | RRuleHeader => [(KR RTags, false); (KT KRuleLine, false)]
-  | RBackground => [(KT KBackgroundLine, false); (KR RStep, true)]
+  | RRuleHeader => [(KR RTags, false); (KT KRuleLine, false); (KR RDescription, false)]
+  | RBackground => [(KT KBackgroundLine, false); (KR RDescription, false); (KR RStep, true)]
   | RScenarioDefinition => [(KR RTags, false); (KR RScenario, false)]
-  | RScenario => [(KT KScenarioLine, false); (KR RStep, true); (KR RExamplesDefinition, true)]
+  | RScenario => [(KT KScenarioLine, false); (KR RDescription, false); (KR RStep, true); (KR RExamplesDefinition, true)]
   | RExamplesDefinition => [(KR RTags, false); (KR RExamples, false)]
-  | RExamples => [(KT KExamplesLine, false); (KR RExamplesTable, false)]
+  | RExamples => [(KT KExamplesLine, false); (KR RDescription, false); (KR RExamplesTable, false)]
   | RExamplesTable => [(KT KTableRow, true)]
-  | RStep => [(KT KStepLine, false); (KR RDataTable, false)]
+  | RStep => [(KT KStepLine, false); (KR RDataTable, false); (KR RDocString, false)]
   | RDataTable => [(KT KTableRow, true)]
   | RTags => [(KT KTagLine, true)]
-  | RDocString | RDescription => []
+  | RDocString | RDescription => [(KT KOther, true)]
   end.
-Definition crfree (x : rule) : bool := match x with RDocString | RDescription => true | _ => false end.
+Definition crfree (x : rule) : bool := false.
 Definition ctfree (k : kind) : bool :=
-  match k with KEOF | KEmpty | KComment | KLanguage | KOther | KDocStringSeparator => true | _ => false end.
+  match k with KEOF | KEmpty | KComment | KLanguage | KDocStringSeparator => true | _ => false end.
+(* a step holds a data table or a doc string, never both *)
+Definition cxr (x : rule) : list (key * key) :=
+  match x with RStep => [(KR RDataTable, KR RDocString)] | _ => [] end.
